@@ -3,11 +3,267 @@
 package c03
 
 import (
+	"fmt"
+	"sort"
+	"strings"
 	"testing"
 
+	cluster "github.com/envoyproxy/go-control-plane/envoy/config/cluster/v3"
+	"google.golang.org/protobuf/proto"
+
+	networking "istio.io/api/networking/v1alpha3"
+	"istio.io/istio/pilot/pkg/model"
+	core "istio.io/istio/pilot/pkg/networking/core"
+	"istio.io/istio/pkg/config"
+	"istio.io/istio/pkg/config/host"
+	"istio.io/istio/pkg/config/protocol"
+	"istio.io/istio/pkg/config/schema/gvk"
+	"istio.io/istio/pkg/config/schema/kind"
+	"istio.io/istio/pkg/util/sets"
 	"verif/harness/vlib"
 )
 
+// ---------------------------------------------------------------- H_delta on the real cluster builder
+//
+// Hypothesis of the history theorems for delta-aware CDS: for a service / DestinationRule change,
+// (BuildClusters before - removed) + updated = BuildClusters after, where (updated, removed) =
+// BuildDeltaClusters told that the client watches the clusters built before.
+
+type hdWorld struct {
+	svcs map[int]int // host index -> port variant (0 = one port, 1 = two ports)
+	drs  map[int]int // host index -> DestinationRule variant (1..3)
+}
+
+func hdService(i, variant int) *model.Service {
+	s := &model.Service{
+		Hostname:   host.Name(fmt.Sprintf("h%d.example.com", i)),
+		Ports:      []*model.Port{{Name: "http", Port: 8080, Protocol: protocol.HTTP}},
+		Resolution: model.ClientSideLB,
+		Attributes: model.ServiceAttributes{Namespace: "bar", Name: fmt.Sprintf("h%d", i)},
+	}
+	if variant == 1 {
+		s.Ports = append(s.Ports, &model.Port{Name: "tcp", Port: 9090, Protocol: protocol.TCP})
+	}
+	return s
+}
+
+func hdDR(i, variant int) config.Config {
+	dr := &networking.DestinationRule{Host: fmt.Sprintf("h%d.example.com", i)}
+	switch variant {
+	case 1:
+		dr.Subsets = []*networking.Subset{{Name: "v1", Labels: map[string]string{"version": "v1"}}}
+	case 2:
+		dr.Subsets = []*networking.Subset{{Name: "v1", Labels: map[string]string{"version": "v1"}}, {Name: "v2", Labels: map[string]string{"version": "v2"}}}
+		dr.TrafficPolicy = &networking.TrafficPolicy{LoadBalancer: &networking.LoadBalancerSettings{
+			LbPolicy: &networking.LoadBalancerSettings_Simple{Simple: networking.LoadBalancerSettings_LEAST_REQUEST}}}
+	default:
+		dr.TrafficPolicy = &networking.TrafficPolicy{ConnectionPool: &networking.ConnectionPoolSettings{
+			Tcp: &networking.ConnectionPoolSettings_TCPSettings{MaxConnections: 7}}}
+	}
+	return config.Config{Meta: config.Meta{GroupVersionKind: gvk.DestinationRule, Name: fmt.Sprintf("dr%d", i), Namespace: "foo"}, Spec: dr}
+}
+
+type interner struct {
+	names map[string]int
+	vers  map[string]int
+}
+
+func (in *interner) name(s string) int {
+	if id, ok := in.names[s]; ok {
+		return id
+	}
+	in.names[s] = len(in.names) + 1
+	return in.names[s]
+}
+
+func (in *interner) ver(b []byte) int {
+	k := string(b)
+	if id, ok := in.vers[k]; ok {
+		return id
+	}
+	in.vers[k] = len(in.vers) + 1
+	return in.vers[k]
+}
+
+func (in *interner) resources(t *testing.T, rs model.Resources) []rsrc {
+	out := make([]rsrc, 0, len(rs))
+	for _, r := range rs {
+		c := &cluster.Cluster{}
+		if err := r.Resource.UnmarshalTo(c); err != nil {
+			t.Fatal(err)
+		}
+		b, err := proto.MarshalOptions{Deterministic: true}.Marshal(c)
+		if err != nil {
+			t.Fatal(err)
+		}
+		out = append(out, rsrc{in.name(r.Name), in.ver(b)})
+	}
+	sort.Slice(out, func(i, j int) bool { return out[i].N < out[j].N })
+	return out
+}
+
+// BuildDeltaClusters remembers ONE watched cluster per (service, port); when a port is removed only that
+// one is deleted and a sibling (plain vs subset cluster of the same port) stays
+const findPortRemoval = "C03-delta-cds-port-removal-keeps-sibling-cluster"
+
 func genHDelta(t *testing.T, c *vlib.Collector, r *vlib.Rand, id int) int {
+	n := vlib.Scale(24, 500)
+	for k := 0; k < n; k++ {
+		id++
+		cs := r.Sub()
+		if !c.Wanted(id) {
+			continue
+		}
+		witness := k == 0
+		prev := hdWorld{svcs: map[int]int{}, drs: map[int]int{}}
+		for i := 1; i <= 4; i++ {
+			if cs.Chance(65) {
+				prev.svcs[i] = cs.Intn(2)
+			}
+			if cs.Chance(45) {
+				prev.drs[i] = 1 + cs.Intn(3)
+			}
+		}
+		if witness {
+			// minimal reproducer of the finding: two ports, one subset, then the second port goes away
+			prev = hdWorld{svcs: map[int]int{4: 1}, drs: map[int]int{4: 1}}
+		}
+		var svcs []*model.Service
+		var cfgs []config.Config
+		for i, v := range prev.svcs {
+			svcs = append(svcs, hdService(i, v))
+		}
+		for i, v := range prev.drs {
+			cfgs = append(cfgs, hdDR(i, v))
+		}
+		cg := core.NewConfigGenTest(t, core.TestOptions{Services: svcs, Configs: cfgs})
+		proxy := cg.SetupProxy(&model.Proxy{IPAddresses: []string{"127.0.0.1"}, ConfigNamespace: "foo"})
+		in := &interner{names: map[string]int{}, vers: map[string]int{}}
+		prevRes, _ := cg.ConfigGen.BuildClusters(proxy, &model.PushRequest{Push: cg.PushContext()})
+		prevL := in.resources(t, prevRes)
+		// the change: services and/or destination rules
+		updated := sets.New[model.ConfigKey]()
+		tags := []string{"hdelta"}
+		changes := 1 + cs.Intn(2)
+		onlySvc, onlyDR := cs.Chance(40), cs.Chance(30)
+		portRemoved := map[int]bool{}
+		if witness {
+			changes, onlySvc, onlyDR = 1, true, false
+		}
+		for j := 0; j < changes; j++ {
+			i := 1 + cs.Intn(4)
+			if witness {
+				i = 4
+			}
+			if (cs.Bool() || onlySvc) && !onlyDR {
+				key := model.ConfigKey{Kind: kind.ServiceEntry, Name: fmt.Sprintf("h%d.example.com", i), Namespace: "bar"}
+				if v, ok := prev.svcs[i]; ok && cs.Chance(50) && !witness {
+					cg.MemRegistry.RemoveService(host.Name(key.Name))
+					delete(prev.svcs, i)
+					tags = append(tags, "svc-removed")
+				} else if ok {
+					prev.svcs[i] = 1 - v
+					cg.MemRegistry.AddService(hdService(i, 1-v))
+					tags = append(tags, "svc-updated")
+					if v == 1 {
+						portRemoved[i] = true
+						tags = append(tags, "svc-port-removed")
+					}
+				} else {
+					prev.svcs[i] = cs.Intn(2)
+					cg.MemRegistry.AddService(hdService(i, prev.svcs[i]))
+					tags = append(tags, "svc-added")
+				}
+				updated.Insert(key)
+			} else {
+				key := model.ConfigKey{Kind: kind.DestinationRule, Name: fmt.Sprintf("dr%d", i), Namespace: "foo"}
+				if v, ok := prev.drs[i]; ok && cs.Chance(45) {
+					if err := cg.Store().Delete(gvk.DestinationRule, key.Name, key.Namespace, nil); err != nil {
+						t.Fatal(err)
+					}
+					delete(prev.drs, i)
+					tags = append(tags, "dr-removed")
+				} else if ok {
+					nv := 1 + v%3
+					prev.drs[i] = nv
+					if _, err := cg.Store().Update(hdDR(i, nv)); err != nil {
+						t.Fatal(err)
+					}
+					tags = append(tags, "dr-updated")
+				} else {
+					prev.drs[i] = 1 + cs.Intn(3)
+					if _, err := cg.Store().Create(hdDR(i, prev.drs[i])); err != nil {
+						t.Fatal(err)
+					}
+					tags = append(tags, "dr-added")
+				}
+				updated.Insert(key)
+			}
+		}
+		pc := model.NewPushContext()
+		pc.InitContext(cg.Env(), nil, nil)
+		cg.Env().SetPushContext(pc)
+		proxy.SetSidecarScope(pc)
+		watched := sets.New[string]()
+		for _, x := range prevRes {
+			watched.Insert(x.Name)
+		}
+		upd, removed, _, used := cg.ConfigGen.BuildDeltaClusters(proxy, &model.PushRequest{Push: pc, ConfigsUpdated: updated},
+			&model.WatchedResource{ResourceNames: watched})
+		full, _ := cg.ConfigGen.BuildClusters(proxy, &model.PushRequest{Push: pc})
+		updL, fullL := in.resources(t, upd), in.resources(t, full)
+		rem := []int{}
+		for _, x := range removed {
+			rem = append(rem, in.name(x))
+		}
+		// the known finding: the only stale clusters are clusters of a removed port 9090
+		if used {
+			fullNames, remNames := sets.New[string](), sets.New(removed...)
+			for _, x := range full {
+				fullNames.Insert(x.Name)
+			}
+			stale, other := 0, 0
+			for _, x := range prevRes {
+				if fullNames.Contains(x.Name) || remNames.Contains(x.Name) {
+					continue
+				}
+				isFinding := false
+				for i := range portRemoved {
+					if strings.HasPrefix(x.Name, "outbound|9090|") && strings.HasSuffix(x.Name, fmt.Sprintf("|h%d.example.com", i)) {
+						isFinding = true
+					}
+				}
+				if isFinding {
+					stale++
+				} else {
+					other++
+				}
+			}
+			if stale > 0 && other == 0 {
+				c.FindingOf[id] = findPortRemoval
+				tags = append(tags, "finding-port-removal")
+			}
+		}
+		if witness {
+			tags = append(tags, "witness-port-removal")
+		}
+		if used {
+			tags = append(tags, "usedDelta")
+			if c.FindingOf[id] == "" {
+				c.Hyp("H_delta: (BuildClusters before - removed) + updated = BuildClusters after, for BuildDeltaClusters answering delta-aware", 1)
+			}
+		} else {
+			tags = append(tags, "fallback-full")
+		}
+		sort.Strings(tags)
+		term := vlib.App("HDelta", vlib.NI(id), rlist(prevL), rlist(updL), rlist(fullL), nlist(rem), vlib.B(used))
+		names := map[int]string{}
+		for s, i := range in.names {
+			names[i] = s
+		}
+		c.Add(vlib.Case{ID: id, Term: term, Tags: uniq(tags), Trivial: !used,
+			Sample: map[string]any{"services": fmt.Sprint(prev.svcs), "destinationRules": fmt.Sprint(prev.drs), "updated": fmt.Sprint(updated.UnsortedList()),
+				"removed": removed, "usedDelta": used, "names": names}})
+	}
 	return id
 }
